@@ -53,7 +53,8 @@ class Cfg:
     """One constructor configuration.  ``L`` is THE latency knob (service time, link latency,
     disk latency, set-up latency ...); ``hold`` is how long a harness worker keeps a capacity."""
 
-    def __init__(self, name, L, t0_ns=int(T0_S * NS), d_ns=int(D_S * NS), per_table=None, reduced=False):
+    def __init__(self, name, L, t0_ns=int(T0_S * NS), d_ns=int(D_S * NS), per_table=None, reduced=False, pair=None):
+        self.pair = pair                # (period, interval) of "long timer vs periodic timer" pairs, see PI()
         self.per_table = per_table      # None: timer periods as written (dyadic); else nominal -> decimal value
         self.reduced = reduced          # timer-centric configuration: only a few arrival patterns
         self.name = name
@@ -85,6 +86,10 @@ class Cfg:
         return f"Cfg({self.name}, L={self.L})"
 
 
+_TA = {0.25: 0.1, 0.5: 0.3, 0.75: 0.7, 1.0: 0.9, 1.25: 1.1, 1.5: 1.3, 2.0: 1.7, 2.5: 2.1,
+       3.0: 2.3, 6.0: 5.3}
+_TB = {0.25: 0.3, 0.5: 0.6, 0.75: 0.7, 1.0: 1.1, 1.25: 1.3, 1.5: 1.4, 2.0: 1.9, 2.5: 2.3,
+       3.0: 2.9, 6.0: 5.9}
 CFGS = {
     "zero": Cfg("zero", 0.0),        # every latency 0: cascades collapse on one instant
     "eq": Cfg("eq", D_S),            # latency == grid step: arrivals land ON completion instants
@@ -99,12 +104,15 @@ CFGS = {
     # NON-DYADIC decimal value (0.1, 0.3, 0.7 ... resp. 0.3, 0.6, 0.7 ...), i.e. one that is not exact in binary
     # floating point, latencies and the arrival grid are decimal too, and the 12 s horizon spans >= 10 periods of every
     # periodic timer.  Only a few arrival patterns are run (the subject here is the timers, not the contention).
-    "dec_a": Cfg("dec_a", 0.1, 1_000_000_000, 100_000_000, reduced=True,
-                 per_table={0.25: 0.1, 0.5: 0.3, 0.75: 0.7, 1.0: 0.9, 1.25: 1.1, 1.5: 1.3, 2.0: 1.7, 2.5: 2.1,
-                            3.0: 2.3, 6.0: 5.3}),
-    "dec_b": Cfg("dec_b", 0.3, 700_000_000, 300_000_000, reduced=True,
-                 per_table={0.25: 0.3, 0.5: 0.6, 0.75: 0.7, 1.0: 1.1, 1.25: 1.3, 1.5: 1.4, 2.0: 1.9, 2.5: 2.3,
-                            3.0: 2.9, 6.0: 5.9}),
+    # Each also fixes the relation of a driver's (long timer, periodic timer) pair - stage period vs evaluation
+    # interval, cooldown vs evaluation interval, TTL vs sweep, election timeout vs heartbeat ... (see PI()):
+    #   dec_a 0.7/0.1 and dec_b 1.2/0.4: period a decimal "multiple" of the interval (not one in floating point),
+    #   dec_c 1.0/0.3 and dec_d 1.3/0.7: period NOT a multiple of the interval, dec_e 0.3/0.7: interval > period.
+    "dec_a": Cfg("dec_a", 0.1, 1_000_000_000, 100_000_000, reduced=True, pair=(0.7, 0.1), per_table=_TA),
+    "dec_b": Cfg("dec_b", 0.3, 700_000_000, 300_000_000, reduced=True, pair=(1.2, 0.4), per_table=_TB),
+    "dec_c": Cfg("dec_c", 0.1, 1_000_000_000, 100_000_000, reduced=True, pair=(1.0, 0.3), per_table=_TA),
+    "dec_d": Cfg("dec_d", 0.3, 700_000_000, 300_000_000, reduced=True, pair=(1.3, 0.7), per_table=_TB),
+    "dec_e": Cfg("dec_e", 0.1, 1_000_000_000, 100_000_000, reduced=True, pair=(0.3, 0.7), per_table=_TA),
 }
 _CUR = {"cfg": None}
 
@@ -116,15 +124,26 @@ def P(x):
     return c.per(x) if c is not None else x
 
 
+def PI(period, interval):
+    """(long timer, periodic timer) pair of a driver: the values as written, except in the decimal configurations,
+    which fix the pair (and thereby the relation: multiple / not a multiple / interval longer than the period)."""
+    c = _CUR["cfg"]
+    if c is not None and c.pair is not None:
+        return c.pair
+    return (period, interval)
+
+
 def R(x):
     """Rate knob: rate whose period is P(1/x)."""
     return 1.0 / P(1.0 / x)
 
 
 TIER = {
-    "quick": {"cfgs": ["zero", "eq", "long", "odd_zero", "odd_eq", "dec_a", "dec_b"], "max_req": 3,
+    "quick": {"cfgs": ["zero", "eq", "long", "odd_zero", "odd_eq", "dec_a", "dec_b", "dec_c", "dec_d", "dec_e"],
+              "max_req": 3,
               "offsets": [0, 1, 2]},
-    "thorough": {"cfgs": ["zero", "short", "eq", "long", "odd_zero", "odd_eq", "dec_a", "dec_b"], "max_req": 4,
+    "thorough": {"cfgs": ["zero", "short", "eq", "long", "odd_zero", "odd_eq", "dec_a", "dec_b", "dec_c", "dec_d",
+                          "dec_e"], "max_req": 4,
                  "offsets": [0, 1, 2, 3]},
 }
 
@@ -607,4 +626,6 @@ def _smoke(argv):
 if __name__ == "__main__":
     import sys
     if len(sys.argv) >= 3 and sys.argv[1] == "smoke":
-        _smoke(sys.argv[2:])
+        # run through the imported module (not __main__) so that drivers and runner share one module state (P/PI)
+        from props import c07_core as _core
+        _core._smoke(sys.argv[2:])
